@@ -202,16 +202,22 @@ class Builders:
         if len(fns) < 10:
             raise AnchorError(f"only {len(fns)} methods found in impl Environment")
         self.fields = [n for n, _ in syn.structs[MOD + "::env::Environment"]["fields"]]
-        for fn in fns:
-            ret = fn["sig"]["ret"]
-            if ret not in ("Environment", "Self"):
-                continue
-            params = [src(i["pat"]) for i in fn["sig"]["inputs"]][1:]
-            # the struct literal(s) returned
-            lits = [n for n in walk(fn["body"]) if n.get("k") == "struct" and n["p"] in ("Environment", "Self")]
-            if not lits:
-                raise AnchorError(f"builder Environment::{fn['name']} does not end in a struct update")
-            effects = None
+        self._fns = {fn["name"]: fn for fn in fns if fn["sig"]["ret"] in ("Environment", "Self")}
+        for name in self._fns:
+            self._effects_of(name, ())
+
+    def _effects_of(self, name, stack):
+        """(params, {field: (kind, deps)}) of a builder; the returned environment is either a struct update of self, or a local copy of
+        self (`self.clone()` / another builder applied to self) whose fields are then assigned or mutated and which is returned"""
+        if name in self.eff:
+            return self.eff[name]
+        if name in stack:
+            raise AnchorError(f"builder Environment::{name} is recursive")
+        fn = self._fns[name]
+        params = [src(i["pat"]) for i in fn["sig"]["inputs"]][1:]
+        lits = [n for n in walk(fn["body"]) if n.get("k") == "struct" and n["p"] in ("Environment", "Self")]
+        effects = None
+        if lits:
             for lit in lits:
                 rest = lit.get("rest")
                 if rest is None or src(strip(rest)) not in ("self",):
@@ -226,7 +232,44 @@ class Builders:
                     for k in set(effects) | set(e):
                         if effects.get(k, ("keep",))[0] != e.get(k, ("keep",))[0]:
                             effects[k] = ("mixed",)
-            self.eff[fn["name"]] = (params, effects)
+        else:
+            tail = tail_expr(fn["body"])
+            tail = strip(tail) if tail else {}
+            if tail.get("k") != "path":
+                raise AnchorError(f"builder Environment::{fn['name']} does not end in a struct update or in a local copy of self")
+            var = tail["p"]
+            inits = [n for n in walk(fn["body"]) if n.get("k") == "local" and n.get("init") is not None and [p_["name"] for p_ in walk(n["pat"]) if p_.get("k") == "pident"] == [var]]
+            if len(inits) != 1:
+                raise AnchorError(f"builder Environment::{fn['name']}: `{var}` is bound {len(inits)} times")
+            init = strip(inits[0]["init"])
+            effects = {}
+            if init.get("k") == "path" and init["p"] == "self":
+                pass        # (strip removed `.clone()`): a plain copy
+            elif init.get("k") == "mcall" and src(strip(init["recv"])) == "self" and init["m"] in self._fns:
+                cparams, ceff = self._effects_of(init["m"], stack + (name,))
+                for fname, eff in ceff.items():
+                    deps = set()
+                    for pn in (eff[1] if len(eff) > 1 and isinstance(eff[1], list) else []):
+                        if pn in cparams and cparams.index(pn) < len(init["args"]):
+                            deps |= {n_["p"] for n_ in walk(init["args"][cparams.index(pn)]) if n_.get("k") == "path" and n_["p"] in params}
+                    effects[fname] = (eff[0], sorted(deps)) if eff[0] in ("assign", "update") else eff
+            else:
+                raise AnchorError(f"builder Environment::{fn['name']}: `{var}` is not a copy of self (`{src(init)[:40]}`)")
+            for n in walk(fn["body"]):
+                if n.get("k") == "assign":
+                    l = strip(n["l"])
+                    if l.get("k") == "field" and src(strip(l["base"])) == var:
+                        effects[l["name"]] = self._classify(fn, l["name"], n["r"], params)
+                if n.get("k") == "mcall":
+                    r_ = strip(n["recv"])
+                    if r_.get("k") == "field" and src(strip(r_["base"])) == var and n["m"] not in ("clone", "iter", "get", "contains", "contains_key", "len", "is_empty"):
+                        deps = set()
+                        for a_ in n["args"]:
+                            c_ = self._classify(fn, r_["name"], a_, params)
+                            deps |= set(c_[1]) if len(c_) > 1 and isinstance(c_[1], list) else set()
+                        effects[r_["name"]] = ("update", sorted(deps))
+        self.eff[name] = (params, effects)
+        return self.eff[name]
 
     def _classify(self, fn, fname, fv, params):
         """how does the new value of the field depend on self / parameters"""
@@ -1045,7 +1088,25 @@ def check_unassigned_join(chk, facts, rule):
                 chk.ob(rule, f"{fsuffix}|{label}", False, f"{fsuffix} [{label}]: returned environment not evaluable", loc)
                 continue
             term = v.f["unassigned"]
-            alts = list(term[1]) if term[0] == "join" else [term]
+
+            def expand(t, depth=0):
+                """alternatives of a term with joins nested inside (a loop-carried accumulator `acc = acc.union(x)` / `Some(x)`): the
+                claim has to hold for each of them"""
+                if not isinstance(t, tuple) or depth > 6:
+                    return [t]
+                if t and t[0] == "join":
+                    out_ = []
+                    for a_ in t[1]:
+                        out_ += expand(a_, depth + 1)
+                    return out_
+                outs = [()]
+                for x in t:
+                    xs = expand(x, depth + 1) if isinstance(x, tuple) else [x]
+                    outs = [o + (y,) for o in outs for y in xs]
+                    if len(outs) > 64:
+                        return [t]
+                return outs
+            alts = expand(term)
             ok_all = True
             why = ""
             for alt in alts:
